@@ -272,5 +272,6 @@ class Run(object):
         if self.harness_errors:
             for e in self.harness_errors[:10]:
                 print("HARNESS-ERROR: " + e)
-            return 2
+            # a violation that was found and written out stands, whatever else went wrong in other shards
+            return 1 if fresh else 2
         return 1 if fresh else 0
